@@ -1,7 +1,7 @@
 (** C03 — non-vacuity: every hypothesis of the property theorems is met by concrete instances, and the
     model runs on literals. *)
 From Coq Require Import ZArith List Bool Lia.
-From RlibV Require Import C03.Model C03.Corr C03.Proofs C03.ProofsInst C03.Properties.
+From RlibV Require Import C03.Model C03.Corr C03.Proofs C03.ProofsInst C03.ProofsCorr C03.Properties.
 Import ListNotations.
 Open Scope Z_scope.
 
@@ -17,8 +17,8 @@ Definition t3 : @tree isz := Nd (Nd E (isz_mk 5) 10 E) (ISz 107 323 3 100) 3 (Nd
 Example ex_rep : RepZ t3 [105; 107; 111].
 Proof.
   unfold t3. eapply RepN with (ms := [100]) (ls := [5]) (rs := [11]); try reflexivity.
-  - apply (Rep_single isize ix ism Z.add zsum isz_pending (isz_mk 5) 10), isz_fresh.
-  - apply (Rep_single isize ix ism Z.add zsum isz_pending (isz_mk 11) 20), isz_fresh.
+  - apply (Rep_single isize ix ism Z.add zsum isz_pending (isz_mk 5) 10), Fresh_Detached, isz_fresh.
+  - apply (Rep_single isize ix ism Z.add zsum isz_pending (isz_mk 11) 20), Fresh_Detached, isz_fresh.
 Qed.
 
 (** the hypotheses of c03_split_at_rep / c03_merge_rep / c03_remove_at on that treap; the pending tag is
@@ -45,11 +45,11 @@ Qed.
 (** c03_history on a concrete history with non-commuting modifications: set 9 then add 1 on the middle
     range [1,2] of [1;2;3;4], for the priority stream [5;5;1;9] (ties) — and for any other stream *)
 Definition hist : list cop :=
-  [CFrom 1; CInsert 0 1 2; CInsert 0 2 3; CInsert 0 3 4;
+  [CFrom 1 []; CInsert 0 1 2 []; CInsert 0 2 3 []; CInsert 0 3 4 [];
    CSplitAt 0 3; CSplitAt 0 1; CMod 2 (MSet 9); CMod 2 (MAdd 1); CAgg 2;
    CMerge 1 2; CMerge 1 0; CCollect 0; CRemove 0 1; CFirst 0; CLast 0; CSize 0].
-Example ex_hist_fresh : Forall (op_fresh asize ax asm zsum iaa_pending) (map to_op1 hist).
-Proof. repeat constructor; apply iaa_fresh. Qed.
+Example ex_hist_fresh : Forall (op_detached asize ax asm zsum iaa_pending) (map to_op1 hist).
+Proof. repeat constructor; apply Fresh_Detached, iaa_fresh. Qed.
 Example ex_hist_spec : option_map snd (srun1 hist) =
   Some [OUnit; OUnit; OUnit; OUnit; OUnit; OUnit; OUnit; OUnit; OAgg (Some 20); OUnit; OUnit;
         OList [1; 10; 10; 4]; ORemoved 10; OElem (Some 1); OElem (Some 4); OSize 3].
@@ -82,18 +82,18 @@ Example ex_hash_merge : forall p q,
 Proof.
   intros p q.
   pose proof (c03_merge_rep _ _ _ _ _ _ _ _ _ _ _ _ _ ihs_lawful (single (ihs_mk 10) p) (single (ihs_mk 20) q) [10] [20]
-                (Rep_single hsz hx ihs_agg Z.add hashagg ihs_pending (ihs_mk 10) p (ihs_fresh 10))
-                (Rep_single hsz hx ihs_agg Z.add hashagg ihs_pending (ihs_mk 20) q (ihs_fresh 20))) as H.
+                (Rep_single hsz hx ihs_agg Z.add hashagg ihs_pending (ihs_mk 10) p (Fresh_Detached _ _ _ _ _ _ (ihs_fresh 10)))
+                (Rep_single hsz hx ihs_agg Z.add hashagg ihs_pending (ihs_mk 20) q (Fresh_Detached _ _ _ _ _ _ (ihs_fresh 20)))) as H.
   destruct (c03_first_last_collect_size _ _ _ _ _ _ _ _ _ _ _ _ _ ihs_lawful _ _ H) as (_ & _ & _ & _ & Hagg).
   exact Hagg.
 Qed.
 (** c03_history on the hash item: build [1;2;3;4], add 5 to the middle range [2;3], read the hash of the middle and of
     the whole; every priority stream gives the outputs of the list specification *)
 Definition hhist : list cop :=
-  [CFrom 1; CInsert 0 1 2; CInsert 0 2 3; CInsert 0 3 4; CAgg 0;
+  [CFrom 1 []; CInsert 0 1 2 []; CInsert 0 2 3 []; CInsert 0 3 4 []; CAgg 0;
    CSplitAt 0 3; CSplitAt 0 1; CMod 2 (MAdd 5); CAgg 2; CMerge 1 2; CMerge 1 0; CAgg 0; CCollect 0; CRemove 0 0; CAgg 0].
-Example ex_hhist_fresh : Forall (op_fresh hsz hx ihs_agg hashagg ihs_pending) (map to_op2 hhist).
-Proof. repeat constructor; apply ihs_fresh. Qed.
+Example ex_hhist_fresh : Forall (op_detached hsz hx ihs_agg hashagg ihs_pending) (map to_op2 hhist).
+Proof. repeat constructor; apply Fresh_Detached, ihs_fresh. Qed.
 Example ex_hhist_spec : spec_outputs 2 hhist =
   Some [OUnit; OUnit; OUnit; OUnit; OAgg (Some (hashf [1; 2; 3; 4])); OUnit; OUnit; OUnit; OAgg (Some (hashf [7; 8]));
         OUnit; OUnit; OAgg (Some (hashf [1; 7; 8; 4])); OList [1; 7; 8; 4]; ORemoved 1; OAgg (Some (hashf [7; 8; 4]))].
@@ -116,11 +116,11 @@ Proof. split; [vm_compute; reflexivity|]. vm_compute. discriminate. Qed.
     Build [10;20;30;40], attach +1 to the root, move position 1 to the end, observe; split, move across two treaps;
     a move whose remove_at is out of range (panic, nothing inserted) and a move naming a treap that is not live. *)
 Definition mhist : list cop :=
-  [CFrom 10; CInsert 0 1 20; CInsert 0 2 30; CInsert 0 3 40; CMod 0 (MAdd 1);
-   CMove 0 1 0 3; CSize 0; CAgg 0; CCollect 0; CSplitAt 0 2; CCollect 0; CCollect 1;
-   CFrom 5; CMove 0 0 2 1; CCollect 2; CSize 2; CSize 0; CMove 0 7 2 0; CMove 5 0 0 0].
-Example ex_mhist_fresh : Forall (op_fresh isize ix ism zsum isz_pending) (map to_op0 mhist).
-Proof. repeat constructor; apply isz_fresh. Qed.
+  [CFrom 10 []; CInsert 0 1 20 []; CInsert 0 2 30 []; CInsert 0 3 40 []; CMod 0 (MAdd 1);
+   CMove 0 1 0 3 []; CSize 0; CAgg 0; CCollect 0; CSplitAt 0 2; CCollect 0; CCollect 1;
+   CFrom 5 []; CMove 0 0 2 1 []; CCollect 2; CSize 2; CSize 0; CMove 0 7 2 0 []; CMove 5 0 0 0 []].
+Example ex_mhist_fresh : Forall (op_detached isize ix ism zsum isz_pending) (map to_op0 mhist).
+Proof. repeat constructor; apply Fresh_Detached, isz_fresh. Qed.
 Example ex_mhist_spec : spec_outputs 0 mhist =
   Some [OUnit; OUnit; OUnit; OUnit; OUnit; ORemoved 21; OSize 4; OAgg (Some 104); OList [11; 31; 41; 21]; OUnit;
         OList [11; 31]; OList [41; 21]; OUnit; ORemoved 11; OList [5; 11]; OSize 2; OSize 1; OPanic; OInvalid].
@@ -137,7 +137,7 @@ Qed.
 (** the model on literals, priorities [2;0;1;3]: the node removed by the first move is the ROOT, with two children
     and the pending +1; the item it returns is complete and clean (element 21, aggregate 21, size 1, nothing pending) *)
 Example ex_mhist_shape :
-  fst (fst (run0 [2; 0; 1; 3] [CFrom 10; CInsert 0 1 20; CInsert 0 2 30; CInsert 0 3 40; CMod 0 (MAdd 1)]))
+  fst (fst (run0 [2; 0; 1; 3] [CFrom 10 []; CInsert 0 1 20 []; CInsert 0 2 30 []; CInsert 0 3 40 []; CMod 0 (MAdd 1)]))
   = [Nd (Nd E (ISz 10 10 1 0) 2 E) (ISz 21 104 4 1) 0 (Nd E (ISz 30 70 2 0) 1 (Nd E (ISz 40 40 1 0) 3 E))].
 Proof. vm_compute. reflexivity. Qed.
 Example ex_mhist_run : model_outputs 0 [2; 0; 1; 3; 0; 9; 0] mhist =
@@ -155,7 +155,77 @@ Qed.
 (** [spec_check] rejects a returned item that still carries its former subtree's aggregate and size (what an
     unlink-without-update remove_at returns for [10;20], position 1 being the root), and accepts the clean one *)
 Example ex_spec_rejects_stale :
-  spec_check (Case 0 [CFrom 10; CInsert 0 1 20; CRemove 0 1] [5; 1] (Some [OUnit; OUnit; ORemoved (RItem 20 30 2 0 0 0)])) = false
-  /\ spec_check (Case 0 [CFrom 10; CInsert 0 1 20; CRemove 0 1] [5; 1] (Some [OUnit; OUnit; ORemoved (RItem 20 20 1 0 0 0)])) = true
-  /\ model_check (Case 0 [CFrom 10; CInsert 0 1 20; CRemove 0 1] [5; 1] (Some [OUnit; OUnit; ORemoved (RItem 20 20 1 0 0 0)])) = true.
+  spec_check (Case 0 [CFrom 10 []; CInsert 0 1 20 []; CRemove 0 1] [5; 1] (Some [OUnit; OUnit; ORemoved (RItem 20 30 2 0 0 0)])) = false
+  /\ spec_check (Case 0 [CFrom 10 []; CInsert 0 1 20 []; CRemove 0 1] [5; 1] (Some [OUnit; OUnit; ORemoved (RItem 20 20 1 0 0 0)])) = true
+  /\ model_check (Case 0 [CFrom 10 []; CInsert 0 1 20 []; CRemove 0 1] [5; 1] (Some [OUnit; OUnit; ORemoved (RItem 20 20 1 0 0 0)])) = true.
+Proof. repeat split; vm_compute; reflexivity. Qed.
+
+(** ---------- items that enter a treap WITH a pending tag (pre-modified fresh item; move-and-update) ---------- *)
+(** [Detached] (the hypothesis of c03_insert_at and of c03_history on FromItem / InsertAt) is met by a freshly made
+    item that the caller modified — "set 9, then add 1" is pending on it — and such an item is NOT [Fresh] *)
+Definition tagged : iaa := iaa_modify (MAdd 1) (iaa_modify (MSet 9) (iaa_mk 5)).
+Example ex_detached : Detached asize ax asm zsum iaa_pending tagged /\ ~ Fresh asize ax asm zsum iaa_pending tagged
+  /\ tagged = IAA 10 10 1 (Some 9) 1.
+Proof.
+  split; [|split; [|reflexivity]].
+  - apply (Detached_mods _ _ _ _ _ _ _ _ _ iaa_lawful [MSet 9; MAdd 1] (iaa_mk 5)), Fresh_Detached, iaa_fresh.
+  - intros (Hp & _). specialize (Hp 0). vm_compute in Hp. discriminate.
+Qed.
+(** c03_insert_at with that item: whatever the priority of the new node (it may become the root and get both halves
+    as children: its tag must not reach them), the sequence gains exactly the item's element *)
+Example ex_insert_tagged : forall p, RepA (insert_at iaa_update iaa_push asize
+      (Nd (Nd E (iaa_mk 1) 10 E) (IAA 2 6 3 None 0) 3 (Nd E (iaa_mk 3) 20 E)) 1 tagged p) [1; 10; 2; 3].
+Proof.
+  intros p.
+  assert (H : RepA (Nd (Nd E (iaa_mk 1) 10 E) (IAA 2 6 3 None 0) 3 (Nd E (iaa_mk 3) 20 E)) [1; 2; 3]).
+  { eapply RepN with (ms := []) (ls := [1]) (rs := [3]); try reflexivity.
+    - intros e. unfold tagf, acts. simpl. lia.
+    - apply (Rep_single asize ax asm amod_act zsum iaa_pending (iaa_mk 1) 10), Fresh_Detached, iaa_fresh.
+    - apply (Rep_single asize ax asm amod_act zsum iaa_pending (iaa_mk 3) 20), Fresh_Detached, iaa_fresh. }
+  exact (c03_insert_at _ _ _ _ _ _ _ _ _ _ _ _ _ iaa_lawful _ 1 tagged p _ H (proj1 ex_detached)).
+Qed.
+(** a history with a pre-modified item in insert_at and in from_item, and a move-and-update *)
+Definition thist : list cop :=
+  [CFrom 1 []; CInsert 0 1 2 []; CInsert 0 2 3 []; CInsert 0 1 50 [MSet 9; MAdd 1]; CCollect 0; CAgg 0;
+   CMove 0 0 0 2 [MAdd 5]; CCollect 0; CFrom 7 [MAdd 3]; CMerge 1 0; CCollect 0; CAgg 0; CMod 0 (MAdd 1); CRemove 0 3].
+Example ex_thist_spec : spec_outputs 1 thist =
+  Some [OUnit; OUnit; OUnit; OUnit; OList [1; 10; 2; 3]; OAgg (Some 16); ORemoved 1; OList [10; 2; 6; 3];
+        OUnit; OUnit; OList [10; 10; 2; 6; 3]; OAgg (Some 31); OUnit; ORemoved 7].
+Proof. vm_compute. reflexivity. Qed.
+(** for EVERY priority stream the model gives the outputs of the list specification (c03_history; its hypothesis
+    [op_detached] holds for every concrete history: conv_detached) *)
+Example ex_thist_model : forall ps, Some (map (out_elem ax) (snd (run1 ps thist))) = spec_outputs 1 thist
+  /\ Forall (out_fresh asize ax asm zsum iaa_pending) (snd (run1 ps thist)).
+Proof.
+  intros ps. unfold spec_outputs, run1, srun1.
+  destruct (srun ax amod_act zsum [] (map to_op1 thist)) as [[sst outs]|] eqn:E; [|discriminate (f_equal (option_map snd) E)].
+  destruct (c03_history _ _ _ _ _ _ _ _ _ _ _ _ _ iaa_lawful ps (map to_op1 thist) sst outs
+              (conv_detached _ _ _ _ _ _ _ _ _ _ _ iaa_lawful iaa_fresh thist) E) as (H & Hf & _).
+  unfold run_outputs in H, Hf. rewrite H. split; [reflexivity|exact Hf].
+Qed.
+(** the model on literals, priorities [5; 6; 7; 1; ...]: the node of the tagged item (priority 1) becomes the ROOT
+    with both halves as children and its tag has been pushed (to nothing) before they were attached; the item that
+    the move hands to insert_at carries "+5" *)
+Example ex_thist_shape :
+  fst (fst (run1 [5; 6; 7; 1] [CFrom 1 []; CInsert 0 1 2 []; CInsert 0 2 3 []; CInsert 0 1 50 [MSet 9; MAdd 1]]))
+  = [Nd (Nd E (IAA 1 1 1 None 0) 5 E) (IAA 10 16 4 None 0) 1 (Nd E (IAA 2 5 2 None 0) 6 (Nd E (IAA 3 3 1 None 0) 7 E))].
+Proof. vm_compute. reflexivity. Qed.
+Example ex_thist_run : model_outputs 1 [5; 6; 7; 1; 0; 9] thist =
+  [OUnit; OUnit; OUnit; OUnit; OList [1; 10; 2; 3]; OAgg (Some 16); ORemoved (RItem 1 1 1 0 0 0); OList [10; 2; 6; 3];
+   OUnit; OUnit; OList [10; 10; 2; 6; 3]; OAgg (Some 31); OUnit; ORemoved (RItem 7 7 1 0 0 0)].
+Proof. vm_compute. reflexivity. Qed.
+(** [spec_check] rejects what an insert_at that hangs the halves under the new node WITHOUT pushing the node first
+    would show (the "+7" of the inserted item reaches its neighbours), and accepts the right answer; a merge that
+    drops a node of priority 2^32-1 next to an empty operand is rejected too *)
+Example ex_spec_rejects_unpushed :
+  spec_check (Case 0 [CFrom 1 []; CInsert 0 1 2 []; CInsert 0 1 50 [MAdd 7]; CCollect 0] [5; 6; 1]
+                (Some [OUnit; OUnit; OUnit; OList [8; 57; 9]])) = false
+  /\ spec_check (Case 0 [CFrom 1 []; CInsert 0 1 2 []; CInsert 0 1 50 [MAdd 7]; CCollect 0] [5; 6; 1]
+                (Some [OUnit; OUnit; OUnit; OList [1; 57; 2]])) = true
+  /\ model_check (Case 0 [CFrom 1 []; CInsert 0 1 2 []; CInsert 0 1 50 [MAdd 7]; CCollect 0] [5; 6; 1]
+                (Some [OUnit; OUnit; OUnit; OList [1; 57; 2]])) = true
+  /\ spec_check (Case 0 [CFrom 1 []; CNew; CMerge 0 1; CCollect 0; CSize 0] [4294967295]
+                (Some [OUnit; OUnit; OUnit; OList []; OSize 0])) = false
+  /\ model_check (Case 0 [CFrom 1 []; CNew; CMerge 0 1; CCollect 0; CSize 0] [4294967295]
+                (Some [OUnit; OUnit; OUnit; OList [1]; OSize 1])) = true.
 Proof. repeat split; vm_compute; reflexivity. Qed.
